@@ -41,6 +41,8 @@ def main(tier, seed):
         spec = model_exec(cases, spec=True)
         feats = {"jumps_taken": 0, "input_read": 0, "ends": {}, "steps_total": 0, "max_steps": 0, "with_output": 0, "with_err": 0, "labels": 0, "return_heart_pending": 0}
         for c, a, m, s in zip(cases, impl, model, spec):
+            if unjudged(a, m, s):
+                rep.count("skipped-resource-limit"); continue
             rep.count("execute_one-traces")
             f = trace_features(a)
             feats["steps_total"] += f["steps"]; feats["max_steps"] = max(feats["max_steps"], f["steps"])
